@@ -114,7 +114,10 @@ class Mode:
                     import math
 
                     v = math.exp(rng.uniform(math.log(lo), math.log(hi)))
-                    self.env[name] = Fraction(round(v, 6)).limit_denominator(10**6) or Fraction(1, 1000)
+                    if v < 1e-3:
+                        self.env[name] = Fraction("%.6g" % v)  # six significant digits, exactly (tolerances such as 1e-14)
+                    else:
+                        self.env[name] = Fraction(round(v, 6)).limit_denominator(10**6) or Fraction(1, 1000)
                 else:
                     span = dom.get("real", 1.5)
                     z = rng.random()
